@@ -44,6 +44,9 @@ type Params struct {
 	// reached Joe's loop) and the publishers start afterwards; map iteration in canonical order only. For
 	// scenarios with many subscribers, where only Joe and the publishers interleave.
 	Phased bool
+	// NoReplayer: Joe without a Replayer (the default configuration). There is no serialisation witness then:
+	// the universal clauses and per-publisher gap-freedom are what is checked.
+	NoReplayer bool
 }
 
 type world struct {
@@ -56,6 +59,7 @@ type world struct {
 	Repeats     map[string]bool
 	DoneBefore  map[string]bool
 	ConcShutErr error
+	NoRep       bool
 }
 
 func body(p Params) func() {
@@ -76,6 +80,10 @@ func body(p Params) func() {
 			rep.Reg = vrt.MakeChan[string](64)
 		}
 		j := &sse.Joe{Replayer: rep}
+		if p.NoReplayer {
+			j = &sse.Joe{}
+			w.NoRep = true
+		}
 		if p.PreInit && p.Inner != "" {
 			jh.PreInitFor(j, true)
 		} else if p.PreInit {
@@ -165,7 +173,7 @@ func body(p Params) func() {
 }
 
 func spec(w *world) *jo.Spec {
-	return &jo.Spec{JL: w.JL, HasReplayer: true, Subs: w.Subs, Msgs: w.Msgs, Ignore: map[string]bool{"init": true},
+	return &jo.Spec{JL: w.JL, HasReplayer: !w.NoRep, Subs: w.Subs, Msgs: w.Msgs, Ignore: map[string]bool{"init": true},
 		ConcurrentShutdown: w.Conc, DoneBeforeShutdown: w.DoneBefore, Repeats: w.Repeats}
 }
 
@@ -308,6 +316,20 @@ func Scenarios(tier string) []run.Scenario {
 				Pubs: [][]MsgP{{{Tag: "m1", Topics: tA}, {Tag: "m2", Topics: tAB}}}})
 		}
 	}
+	// Joe without a replayer: a subscriber fails and is cancelled at any moment around it; the other one keeps
+	// receiving what the publisher goes on to publish
+	for f := 0; f < 2; f++ {
+		for at := 1; at <= 2; at++ {
+			for _, canc := range bools {
+				subs := []SubP{{Topics: tA}, {Topics: tAB}}
+				subs[f].FailAt, subs[f].Cancel = at, canc
+				add(Params{Name: fmt.Sprintf("no-replayer-sub%d-fails-call%d-cancel%v", f+1, at, canc), PreInit: true, Preempt: -1, NoReplayer: true, Subs: subs,
+					Pubs: [][]MsgP{{{Tag: "m1", Topics: tA}, {Tag: "m2", Topics: tAB}, {Tag: "m3", Topics: tA}}}})
+			}
+		}
+	}
+	add(Params{Name: "no-replayer-cancel", PreInit: true, Preempt: -1, NoReplayer: true, Subs: []SubP{{Topics: tA, Cancel: true}, {Topics: tAB}},
+		Pubs: [][]MsgP{{{Tag: "m1", Topics: tA}, {Tag: "m2", Topics: tB}}, {{Tag: "m3", Topics: tAB}, {Tag: "m4", Topics: tA}}}})
 	if tier == "thorough" {
 		for _, slow := range bools {
 			for cancelWho := 0; cancelWho <= 3; cancelWho++ {
@@ -325,7 +347,7 @@ func Scenarios(tier string) []run.Scenario {
 
 var Check = &run.Check{
 	ID: "C03", Level: "model_checking",
-	Rule: "Scenarios: 2-3 subscribers on disjoint/overlapping/default topics (one of them cancelled by a thread that first notes which Publish calls had returned), 2-3 publisher threads with 3-4 messages, fast and slow (yielding) clients, Joe pre-initialised or initialised by the racing calls, nine subscribers registered one after the other; real Finite/ValidReplayer behind the recorder with topic lists that repeat topics next to a default-topic subscriber; one prebuilt *Message value published repeatedly (its publications told apart by the replayer's Put order), final Shutdown (or a Shutdown racing everything, after noting which Publish calls had returned); all interleavings (unbounded, state-key pruning), all select tie-breaks, all map orders. The recording replayer's call order is the serialisation witness.",
+	Rule: "Scenarios: 2-3 subscribers on disjoint/overlapping/default topics (one of them cancelled by a thread that first notes which Publish calls had returned), 2-3 publisher threads with 3-4 messages, fast and slow (yielding) clients, Joe pre-initialised or initialised by the racing calls, nine subscribers registered one after the other; real Finite/ValidReplayer behind the recorder with topic lists that repeat topics next to a default-topic subscriber; Joe without a replayer with a subscriber that fails and is cancelled around it (per-publisher gap-freedom: whoever received a publisher's k-th message is owed its later ones); one prebuilt *Message value published repeatedly (its publications told apart by the replayer's Put order), final Shutdown (or a Shutdown racing everything, after noting which Publish calls had returned); all interleavings (unbounded, state-key pruning), all select tie-breaks, all map orders. The recording replayer's call order is the serialisation witness.",
 	Assumptions: []string{
 		"schedules are explored at the granularity of synchronisation operations under sequential consistency (DESIGN.md 2.1)",
 		"'published before cancellation was requested' is decided inside each execution through a shared flag set after Publish returned and read by the cancelling thread (an under-approximation of what is owed, never an over-approximation)",
